@@ -268,6 +268,7 @@ func checkC11(c *Ctx) {
 			r.Bad("C11.edit-failure", fmt.Sprintf("%s:nil-error-use#%d", n, i), p.IPos(b.Use), b.Msg)
 		}
 	}
+	checkC11AcceptRows(c)
 }
 
 func checkCursorTable(c *Ctx, p *Prog, defConst constant.Value) {
